@@ -12,7 +12,8 @@ here, like tools/make_sweep_copy.sh), never on /repo. For each sampled mutant:
   3. `cargo test --offline --lib` (hooks off, 163 tests) -> mutants the
      repository's own tests kill are dropped ("killed-by-tests");
   4. the quick checks are run against the survivor, the ones anchored in the
-     mutated file first, until one reports a VIOLATION ("killed-by-check"), an
+     mutated file first (those at full size, the remaining ones with
+     VERIF_SCALE=0.25), until one reports a VIOLATION ("killed-by-check"), an
      INCONCLUSIVE result is noted, or all 20 passed ("survived").
 
 Every mutant that reaches step 4 is appended to mutants/auto/results.jsonl
@@ -68,7 +69,7 @@ def sh(cmd, cwd=None, timeout=None, env=None):
         p = subprocess.run(cmd, shell=True, cwd=cwd, capture_output=True, text=True, timeout=timeout, env=e)
         return p.returncode, p.stdout + p.stderr
     except subprocess.TimeoutExpired:
-        subprocess.run("pkill -9 -f /tmp/mut/repo/target; pkill -9 -f deps/aho_corasick-", shell=True)
+        subprocess.run("pkill -9 -f /tmp/mut/repo/target", shell=True)
         return 124, "timeout"
 
 
@@ -129,6 +130,13 @@ def lib_files():
     return sorted(out)
 
 
+def primary_for(f):
+    for k in sorted(PRIMARY, key=len, reverse=True):
+        if f.startswith(k):
+            return PRIMARY[k]
+    return ALL
+
+
 def order_for(f):
     for k in sorted(PRIMARY, key=len, reverse=True):
         if f.startswith(k):
@@ -182,8 +190,13 @@ def main():
             reached += 1
             outcome, check, reason, notes = "survived", None, None, []
             t0 = time.time()
+            primary = primary_for(f)
             for c in order_for(f):
-                rc, o = sh(f"./check {c} quick", cwd=VERIF, timeout=2400, env={"VERIF_SEED": str(seed)})
+                # checks anchored in the mutated file run at full size, the others at a quarter
+                env = {"VERIF_SEED": str(seed)}
+                if c not in primary:
+                    env["VERIF_SCALE"] = "0.25"
+                rc, o = sh(f"./check {c} quick", cwd=VERIF, timeout=2400, env=env)
                 if rc == 1 and "VIOLATION property=" in o:
                     outcome, check = "killed-by-check", c
                     m = re.search(r"reason: (.*)", o)
